@@ -592,6 +592,48 @@ def main():
             undec.append((fq, "failed without an attributable diagnostic"))
         else:
             undec.append((fq, "; ".join(sorted({f["message"] for f in msgs}))[:300]))
+    # Modularity artefact guard. Verus checks a caller against the callee's CONTRACT; a function that did not exist on the pinned
+    # tree has none, so its caller's obligation fails whether or not the new code is right. Such a failure is "needs contract",
+    # not a violation: it is reported only if the property's native search reproduces a concrete failing input on the real code,
+    # otherwise the obligation is undecided (exit 2).
+    baseline_unc = obl.get("baseline_uncontracted", {})
+    known_names = {}
+    for fq_k in list(report["under_contract"]) + [a["fn"] for a in report["assumed"]]:
+        pk = fq_k.split("::")
+        known_names.setdefault(pk[0], set()).add(pk[-1])
+    new_fns = set()
+    for m_, names_ in report.get("all_fns", {}).items():
+        for n_ in names_:
+            if n_ not in known_names.get(m_, set()) and n_ not in baseline_unc.get(m_, []):
+                new_fns.add(n_)
+    if new_fns and violations:
+        idx_g = FnIndex(gen)
+        gen_lines = idx_g.src.splitlines()
+        kept = []
+        for v in violations:
+            p_ = v["obligation"].split("::")
+            body = ""
+            for (sl, el, mod_, name_, cont_, hdr_) in idx_g.entries:
+                if mod_ == p_[0] and name_ == p_[-1] and (len(p_) < 3 or cont_ == p_[1] or cont_ is None or str(cont_).startswith("impl")):
+                    body = "\n".join(gen_lines[sl - 1:el])
+                    break
+            used = sorted(n_ for n_ in new_fns if re.search(r"\b%s\s*\(" % re.escape(n_), body) and n_ != p_[-1])
+            if not used:
+                kept.append(v)
+                continue
+            cex = None
+            try:
+                import backends
+                cex = backends.counterexample(pid, v["obligation"], bdir, seed)
+            except ImportError:
+                pass
+            if cex and cex.get("reproduced"):
+                v["input"] = cex
+                v["note"] = "obligation depends on new function(s) without contract (%s); kept because a failing input was reproduced on the real code" % ", ".join(used)
+                kept.append(v)
+            else:
+                undec.append((v["obligation"], "fails, but calls new function(s) that carry no contract (%s): a modularity artefact cannot be told from a defect; no failing input found by the native search" % ", ".join(used)))
+        violations = kept
     for v in sec_viol:
         violations.append(v)
     for srec in secondary:
